@@ -160,6 +160,25 @@ func (p *Prog) statusFact(fs []Fact, st ssa.Value, bad int64) int {
 			}
 			k, ok := constInt(other)
 			if !ok {
+				// compared with a parameter every call site fills with a
+				// constant (`decisive predOutcome`): equal to it, the status is
+				// one of those constants
+				if ks := p.paramConsts(other); len(ks) > 0 && (c.Op == token.EQL) == f.Truth {
+					allBad, noneBad := true, true
+					for _, kk := range ks {
+						if kk == bad {
+							noneBad = false
+						} else {
+							allBad = false
+						}
+					}
+					if allBad {
+						return 1
+					}
+					if noneBad {
+						res = -1
+					}
+				}
 				continue
 			}
 			eq := (c.Op == token.EQL) == f.Truth
@@ -181,6 +200,38 @@ func (p *Prog) statusFact(fs []Fact, st ssa.Value, bad int64) int {
 		}
 	}
 	return res
+}
+
+// paramConsts: v is a parameter of an unexported module function all of whose
+// call sites are plain calls passing an integer constant there: those
+// constants (nil otherwise).
+func (p *Prog) paramConsts(v ssa.Value) []int64 {
+	q, ok := stripConvPlain(v).(*ssa.Parameter)
+	if !ok {
+		return nil
+	}
+	fn := q.Parent()
+	if fn == nil || fn.Object() == nil || fn.Object().Exported() || !inModule(fn) || fn.Parent() != nil {
+		return nil
+	}
+	nd := p.CG.Nodes[fn]
+	if nd == nil || len(nd.In) == 0 {
+		return nil
+	}
+	idx := paramIndex(q)
+	var out []int64
+	for _, e := range nd.In {
+		c, ok := e.Site.(*ssa.Call)
+		if !ok || c.Call.StaticCallee() != fn || idx >= len(c.Call.Args) {
+			return nil
+		}
+		k, isC := constInt(c.Call.Args[idx])
+		if !isC {
+			return nil
+		}
+		out = append(out, k)
+	}
+	return out
 }
 
 // badConstFor returns the distinguished "error" constant of a pair kind.
@@ -278,6 +329,14 @@ func (p *Prog) pairCoherent(st, e ssa.Value, fs []Fact, bad int64, seen map[[2]s
 	if c1, i1 := callOf(st); c1 != nil {
 		if c2, i2 := callOf(e); c2 == c1 && i1 == 0 && i2 == 1 {
 			if sig := calleeSig(c1); sig != nil && p.pairKind(sig) != "" {
+				return true, ""
+			}
+		}
+		// … or the status and the error of one call to a helper that carries
+		// such a pair beside a value (`item, res, err := exec.operand(…)`)
+		// and sets them together on each of its returns
+		if c2, i2 := callOf(e); c2 == c1 && i2 == i1+1 {
+			if j, kind := p.statusAmongResults(c1.Call.StaticCallee()); kind != "" && j == i1 {
 				return true, ""
 			}
 		}
@@ -535,6 +594,22 @@ func (p *Prog) consumerCheck(fn *ssa.Function, c *ssa.Call, errV, stV ssa.Value,
 										e = false
 									}
 								}
+							} else if ks := p.paramConsts(o2); len(ks) > 0 {
+								// st == a parameter every call site fills with a
+								// good constant: the equal edge refutes
+								good := true
+								for _, kk := range ks {
+									if kk == bad {
+										good = false
+									}
+								}
+								if good {
+									if bo.Op == token.EQL {
+										t = false
+									} else {
+										e = false
+									}
+								}
 							}
 						}
 					}
@@ -597,6 +672,16 @@ func (p *Prog) consumerCheck(fn *ssa.Function, c *ssa.Call, errV, stV ssa.Value,
 							if k, ok := constInt(pr[1]); ok {
 								if (k == bad && !eq) || (k != bad && eq) {
 									return true // the status is not the bad one
+								}
+							} else if ks := p.paramConsts(pr[1]); len(ks) > 0 && eq {
+								good := true
+								for _, kk := range ks {
+									if kk == bad {
+										good = false
+									}
+								}
+								if good {
+									return true
 								}
 							}
 						}
